@@ -88,6 +88,8 @@ def c08_notnew(split, pi, vi, j, n0p, n0, n1p, n1, d0p, u0p):
     s0 = site('s0', f0) if (f0 or split.get('always_tag')) else ''
     s1 = site('s1', f1) if (j is not None and f1) else ''
     vtext, val = VALUES[vi]
+    if d0p and isinstance(val, list):
+        return True      # a list below a !merge root combines index-wise (C04), not the subject here
     doc = render(path, vtext, s0, s1, j)
     note(docs=[BASE_TEXT, doc], path=repr(path))
     pre = exists_prefix(BASE, path)
